@@ -116,7 +116,7 @@ def read_all(TFI, path, enc, prefix):
 
 
 def shards(tier):
-    return [('seq', i, NSHARDS) for i in range(NSHARDS)] + [('rules', i, NSHARDS) for i in range(NSHARDS)] + [('junk', 0, 1), ('cli', 0, 1), ('long', 0, 1)]
+    return [('seq', i, NSHARDS) for i in range(NSHARDS)] + [('rules', i, NSHARDS) for i in range(NSHARDS)] + [('junk', 0, 1), ('cli', 0, 1), ('long', 0, 1), ('encjunk', 0, 1)]
 
 
 def bounds(tier):
@@ -432,6 +432,68 @@ def run_cli_layer(tier, acc):
     tree.rmtree(td)
 
 
+# undecodable bytes in the other encodings the trainer's auto-detection can come up with (chardet names utf-16 / utf-32 from the BOM, the CJK and
+# single-byte code pages from their statistics): exactly the offending line is skipped and counted, in every encoding
+ENC_JUNK = [('ascii', b'ab\xffcd'), ('cp1252', b'ab\x81cd'), ('iso-8859-7', b'ab\xaecd'), ('shift_jis', b'ab\xff\xffcd'),
+            ('shift_jis', b'ab\x81'), ('gb2312', b'ab\xff\xffcd'), ('big5', b'ab\xff\xffcd'), ('euc-kr', b'ab\xff\xffcd'),
+            ('euc-jp', b'ab\xff\xffcd'), ('gb18030', b'ab\xff\xffcd'), ('cp949', b'ab\xff\xffcd'), ('utf-8', b'ab\xc3'),
+            ('utf-8', b'\xa9abc'), ('utf-8', b'ab\xed\xa0\x80cd'), ('utf-8', b'ab\xf4\x90\x80\x80'), ('utf-8', b'ab\xc0\xafcd'),
+            # a lone high surrogate, a low one before a high one (utf-16); a value beyond U+10FFFF, a surrogate value (utf-32)
+            ('utf-16', b'a\x00b\x00\x00\xd8c\x00'), ('utf-16', b'a\x00b\x00\x00\xdc\x00\xd8'), ('utf-32', b'a\x00\x00\x00\xff\xff\xff\xff'),
+            ('utf-32', b'a\x00\x00\x00\x00\xd8\x00\x00')]
+
+
+def run_encjunk(tier, acc):
+    from ..runner import step_deadline, StepTimeout
+    tree.use()
+    TFI = tree.imp('lib_trainer.trainer_file_input').TrainerFileInput
+    wd = tree.mkdtemp('pcfgmc-c19e-')
+    path = os.path.join(wd, 't.txt')
+    # the third list is longer than the largest chunk the codec's stream reader asks for
+    bases = [['password', 'password', 'letmein'], ['Pass word', ' lead', 'x1'], ['pw%04d' % i for i in range(3000)]]
+    for enc, jb in ENC_JUNK:
+        piece = {'utf-16': 'utf-16-le', 'utf-32': 'utf-32-le'}.get(enc, enc)
+        bom = {'utf-16': b'\xff\xfe', 'utf-32': b'\xff\xfe\x00\x00'}.get(enc, b'')
+        hangs = 0
+        for seq in bases:
+            for pos in (range(len(seq) + 1) if len(seq) < 10 else (0, 1, 1500, 2999, 3000)):
+                for nl in ('\n', '\r\n'):
+                    for reps in (1, 2):
+                        if hangs >= 2:
+                            continue      # two files of this kind already showed that the reader does not come back: do not wait for the others
+                        lines = [p_.encode(piece) for p_ in seq]
+                        lines[pos:pos] = [jb] * reps
+                        data = bom + b''.join(l + nl.encode(piece) for l in lines)
+                        acc.evals += 1
+                        acc.nontrivial += 1
+                        case = {'layer': 'encjunk', 'base': seq if len(seq) < 10 else 'pw0000..pw2999', 'encoding': enc, 'junk': jb.hex(), 'position': pos, 'newline': nl,
+                                'repeats': reps}
+                        if len(seq) < 10:
+                            case['file_hex'] = data.hex()
+                        with open(path, 'wb') as f:
+                            f.write(data)
+                        try:
+                            with step_deadline(5):
+                                got, npw, nerr = read_all(TFI, path, enc, False)
+                                again = read_all(TFI, path, enc, False)
+                        except StepTimeout:
+                            hangs += 1
+                            acc.fail(case, 'undecodable bytes %r on line %d of a %s file: the reader never returns (no end of file after 5 s for %d lines)' % (jb, pos, enc, len(lines)),
+                                     'junk-hang:enc-' + enc)
+                            continue
+                        except Exception as e:
+                            acc.fail(case, 'undecodable bytes %r in a %s file (line %d) make the reader raise %r' % (jb, enc, pos, e), 'junk-raise:enc-' + enc)
+                            continue
+                        if again != (got, npw, nerr):
+                            acc.fail(case, 'two passes over the same %s file yield %r and %r' % (enc, (got[:5], npw, nerr), (again[0][:5],) + again[1:]), 'passes-differ:enc-' + enc)
+                            continue
+                        if got != seq or npw != len(seq) or nerr != reps:
+                            extra = [g for g in got if g not in seq]
+                            acc.fail(case, 'undecodable bytes %r on line %d of a %s file (x%d): reader yields %d passwords %r.., num_passwords=%d, num_encoding_errors=%d; expected the %d of %r.., %d, %d'
+                                     % (jb, pos, enc, reps, len(got), got[:4], npw, nerr, len(seq), seq[:4], len(seq), reps), ('junk-leak:enc-' if extra else 'junk-loss:enc-') + enc)
+    tree.rmtree(wd)
+
+
 def train_bytes_opts(wd, data, enc, prefix, rule, **opts):
     ok, base, out, pi = P.train(wd, None, rule=rule, raw_bytes=data, encoding=enc, prefixcount=prefix, **opts)
     if ok is not True:
@@ -450,11 +512,19 @@ def run_shard(shard, tier, acc):
         run_rules(shard, tier, acc)
     elif shard[0] == 'long':
         run_long(tier, acc)
+    elif shard[0] == 'encjunk':
+        run_encjunk(tier, acc)
     else:
         run_junk(tier, acc)
 
 
 def replay(case):
+    if case.get('layer') == 'encjunk':
+        from ..runner import Acc
+        acc = Acc()
+        run_encjunk('quick', acc)
+        fs = [f for f in acc.failures if f['case'] == case]
+        return fs[0]['msg'] if fs else None
     if case.get('layer') == 'long':
         from ..runner import Acc
         acc = Acc()
